@@ -462,6 +462,27 @@ def check_traj(run, fns, tvs, cover, stats):
             for i in np.nonzero(good & (e_al > DRIFT_TOL))[0]:
                 run.spec_drift(f"{fn}/omega_dot", "returned angular acceleration differs from the derivative of the frame's true rate (not promised by C14)")
                 stats["max_omega_dot_drift"] = max(stats.get("max_omega_dot_drift", 0.0), float(e_al[i]))
+    # --- mr_ref_traj takes the full inertia incl. the product of inertia J_xz as an input (f_ref hard-codes
+    #     J_xz = 0): Euler's equation must hold for the inertia the function is GIVEN, so re-run the generic
+    #     vectors with non-zero J_xz (found missing by a seeded change that dropped J_xz from the gyroscopic term)
+    for jxz_rel in (0.3, -0.45):
+        cmx = [c.copy() for c in cm]
+        jxz = jxz_rel * math.sqrt(float(K["J"][0, 0]) * float(K["J"][2, 2]))
+        cmx[12] = np.full_like(cmx[12], jxz)
+        Jx = np.array(K["J"], float).copy(); Jx[0, 2] = Jx[2, 0] = jxz
+        vb, att, om, omd, M, T = batch_call(fns.mr, cmx)
+        gen = np.array([tv["cell"] == "generic" for tv in tvs])
+        with np.errstate(invalid="ignore"):
+            fin = np.all(np.isfinite(om), axis=0) & np.all(np.isfinite(omd), axis=0) & np.all(np.isfinite(M), axis=0)
+            Mx = Jx @ omd + np.cross(om, Jx @ om, axis=0)
+            dM = np.max(np.abs(M - Mx), axis=0)
+            sM = np.maximum(1.0, np.max(np.abs(Mx), axis=0))
+        for k in np.nonzero(gen & fin)[0]:
+            stats["euler_jxz_points"] = stats.get("euler_jxz_points", 0) + 1
+            if not (dM[k] <= TOL * sM[k]):
+                run.violation(f"mr_ref_traj/euler_equation_Jxz/{keycell(tvs[k])}",
+                              "returned moment is not J omega_dot + omega x J omega for the given inertia with J_xz != 0",
+                              {"tv": tvs[k], "J_xz": jxz, "M": M[:, k].tolist(), "expected_M": Mx[:, k].tolist(), "err": float(dM[k])})
     # --- the two shipped variants agree at identical inputs
     a, b = outs["f_ref"], outs["mr_ref_traj"]
     names = ["v_b", "attitude", "omega", "omega_dot", "M", "T"]
